@@ -1439,10 +1439,10 @@ fn budget(tier: Tier) -> Budget {
 			random: 384,
 		},
 		Tier::Thorough => Budget {
-			splice: 200,
-			bitflip: 300,
-			havoc: 400,
-			random: 1500,
+			splice: 600,
+			bitflip: 900,
+			havoc: 1500,
+			random: 4000,
 		},
 	}
 }
@@ -1533,11 +1533,12 @@ fn pick_spread(idx: Vec<usize>, max: usize) -> Vec<usize> {
 }
 
 /// (max integer fields, max tag bytes, max truncation offsets) enumerated per seed
-fn caps(dec: usize) -> (usize, usize, usize) {
-	if dec == D_CODEC {
-		(12, 5, 96)
-	} else {
-		(64, 16, 1024)
+fn caps(dec: usize, tier: Tier) -> (usize, usize, usize) {
+	match (dec == D_CODEC, tier) {
+		(true, Tier::Quick) => (12, 5, 96),
+		(false, Tier::Quick) => (64, 16, 1024),
+		(true, Tier::Thorough) => (24, 8, 192),
+		(false, Tier::Thorough) => (128, 32, 2048),
 	}
 }
 
@@ -1570,7 +1571,7 @@ fn build_space(corpus: &Corpus, tier: Tier) -> Space {
 	};
 	for (si, s) in corpus.seeds.iter().enumerate() {
 		let si = si as u32;
-		let (max_int, max_tag, max_trunc) = caps(s.dec as usize);
+		let (max_int, max_tag, max_trunc) = caps(s.dec as usize, tier);
 		push(&mut groups, si, s.dec, s.ver, s.net, Class::Honest, 1, vec![]);
 		if s.enumerate {
 			let ints: Vec<usize> = (0..s.fields.len())
